@@ -71,6 +71,12 @@ def history(ctx, nops):
             ops.append(["recompile", 2, text])
             for k in range(3):
                 ops.append(["call", 2, common.enc_env({"u": "unit%d" % rng.randrange(50)})])
+    # falsy and empty ids are ids: with no salt (or an empty one) and every splitter value printing as "", the key is the empty string
+    for text in ('def nosalt { splitters: u return "a" weighted 1, "b" weighted 1, "c" weighted 1, "d" weighted 1 }',
+                 'def emptysalt { salt: "" splitters: u, v return "a" weighted 1, "b" weighted 2, "c" weighted 1, "d" weighted 3 }'):
+        ops.append(["new", 0, text])
+        for val in ("", "", 0, "", None, False, "", 0.0, " ", ""):
+            ops.append(["call", 0, common.enc_env({"u": val, "v": ""})])
     # endurance: thousands of distinct units through one evaluator, then the first ones again (anything that remembers a
     # bounded number of recent calls, counts uses or rotates state has by then wrapped around)
     n_end = 1200 if nops <= 300 else 9000
